@@ -179,4 +179,27 @@ func init() {
 		},
 		Quick: 40, Thorough: 600, Real: commonReal, Simulated: commonSim,
 	}
+	Props["C11"] = &PropSpec{
+		ID: "C11", Level: "exploration",
+		Technique: "deterministic simulation: seeded histories that end with chosen primary/index files holding no live data (or falling below the low-use threshold), followed by bounded rounds of (GC cycle, Flush) with progress, conservation and fixed-point checks on the simulated disk",
+		Rule: "one case = generated history on the multihash primary with 32 B-1 KiB file limits; then (mode 0/2) every key whose current location (read through Index.Get) lies in a chosen subset of the non-current primary files is removed or overwritten and the change flushed, or (mode 1) files are pushed below a low-use threshold t in {1,50,74,85}; oracle: within B = 4 + moved records rounds (6 + 3*moved for low-use draining; x3 with countdown-interrupted cycles) of (primary GC, Flush) every targeted file is zero-length or unlinked, the oldest file if targeted is unlinked and the header first-file number advanced; mode 2: index files no bucket refers into are emptied within 2 + #index-files index GC cycles; GC cycle errors are violations; cycles without relocation never increase StorageSize, a flush after a relocating cycle grows the primary by at most the relocated bytes; repeated rounds reach a fixed point (3 consecutive rounds changing no file) within a bound and never leave it; " +
+			"non-trivial = at least one targeted file was released or a fixed point was verified after real GC work; distinct = distinct (plan hash, schedule hash)",
+		Nontrivial: func(o *RunOut) bool { return o.Probes["primary-released"]+o.Probes["index-released"] > 0 },
+		Assumptions: []string{
+			"bounds are generous finite constants derived from the number of records moved; they are not tight",
+			"no GC cycle precedes the measured rounds in the same process (the collector's visited set starts empty)",
+		},
+		Quick: 40, Thorough: 600, Real: commonReal, Simulated: commonSim,
+	}
+	Props["C09"] = &PropSpec{
+		ID: "C09", Level: "fault_enumeration",
+		Technique: "deterministic simulation: seeded contents re-bucketed between sampled bit-size pairs with model comparison and continued histories; file-size mismatches; crash-point / torn-write enumeration over every mutating file operation of the re-bucketing open, each image reopened with the new and the old bit size",
+		Rule: "one case = generated contents (C01 history, multi-file index) under bits b1, Close, file-size mismatch opens (index, primary: must fail with the specific error type, and the original settings must then show the contents intact), reopen with b2 (pairs from {8,9,10,12,15,16,17,20}, 24 in 1% of thorough cases): contents = model (all keys + iteration), a further history under b2 with fsck at every flush, and re-bucketing back to b1; crash class (45%): every mutating file op of the re-bucketing open is a crash point (quick: seeded sample of 30 incl. torn appends; thorough: all), each image is opened with b2 and with b1: the open may fail, but if it succeeds every key of the model must read its value; " +
+			"non-trivial = a re-bucketing completed on a store where two keys share a bucket or a file rolled over, or crash images were booted; distinct = distinct (plan hash, schedule hash)",
+		Nontrivial: func(o *RunOut) bool {
+			return o.Probes["translated"] > 0 && (o.Probes["bucket-shared"]+o.Probes["index-rolled"]+o.Probes["primary-rolled"]+o.Probes["recoveries"] > 0)
+		},
+		Assumptions: []string{"process-crash model (written data survives)", "bit sizes above 24 are outside the stated configurations; 24 is sampled rarely (128 MiB table)"},
+		Quick:       45, Thorough: 900, Real: commonReal, Simulated: commonSim,
+	}
 }
